@@ -54,7 +54,9 @@ def one(seed):
         p = subprocess.run(['patch', '-p1', '-s', '-i', os.path.join(V, 'seeded', seed, 'patch.diff')], cwd=d, capture_output=True, text=True)
         if p.returncode:
             return seed, {'error': p.stdout + p.stderr}
-        env = dict(os.environ, PYVC_REPO=d, PYVC_EVIDENCE_DIR=d + '/evidence', PYVC_REPLAY_DIR=d + '/replays', PYVC_NO_RETRY='1')
+        env = dict(os.environ, PYVC_REPO=d, PYVC_EVIDENCE_DIR=d + '/evidence', PYVC_REPLAY_DIR=d + '/replays')
+        if '--retry' not in sys.argv:
+            env['PYVC_NO_RETRY'] = '1'       # faster; but an obligation that only times out under load then shows up as an alarm
         res = {}
         for c in checks_for(seed):
             r = subprocess.run([os.path.join(V, 'check'), c, '--tier', 'quick', '--jobs', '6'], cwd=V, env=env, capture_output=True, text=True)
